@@ -49,6 +49,7 @@ def gen_inputs(rng, spec, n=None, engines_ok=None, pti_status_varies=False):
                                       # a shaft-only calculation may carry any on/off series for it
                                       "status": [bool(rng.random() < 0.7) for _ in range(n)] if (pti_status_varies and rng.random() < 0.4) else [True] * n}
     inp["dtype"]["power"] = str(rng.choice(["float", "int"], p=[0.8, 0.2]))      # whole-number series in integer arrays
+    inp["dtype"]["full"] = str(rng.choice(["bool", "int", "float"], p=[0.7, 0.2, 0.1]))     # full-PTI flags written as 0 / 1
     if inp["dtype"]["power"] == "int":
         for d in inp["comp"].values():
             for key in ("load", "shaft"):
@@ -88,11 +89,13 @@ def apply_inputs(plant, inp):
             obj.set_power_input_from_output(arr(d["load"]))
         else:
             obj.status = np.array(d["status"], dtype=bool)
+            fl_dt = {"bool": bool, "int": int, "float": float}[inp.get("dtype", {}).get("full", "bool")]
             if inp.get("fill_in_place") and len(d["full"]) == n:
-                obj.full_pti_mode = np.zeros(n, dtype=bool)
+                obj.full_pti_mode = np.zeros(n, dtype=fl_dt)
                 obj.full_pti_mode[np.array(d["full"], dtype=bool)] = True
             else:
-                obj.full_pti_mode = np.array(d["full"], dtype=bool)
+                obj.full_pti_mode = np.array(d["full"], dtype=fl_dt)
+            core.axis("full-pti-flags", fl_dt.__name__)
             obj.set_power_input_from_output(arr(d["shaft"]))
     plant.mechanical.set_time_interval(np.array(inp["dt"], dtype=float), integration_method=IntegrationMethod.sum_with_time)
 
